@@ -560,7 +560,8 @@ type obs struct {
 	// answeredAfter: a later exchange on the same connection received a
 	// response head, i.e. the connection was still open after this response
 	answeredAfter bool
-	Stalled       bool // no further byte will arrive: the system is quiescent
+	nextHead      time.Time // when that later response head had arrived
+	Stalled       bool      // no further byte will arrive: the system is quiescent
 	TSend         time.Time
 	TDone         time.Time
 	ConnGen       int
@@ -802,21 +803,28 @@ func judge(r *vh.Run, c interface{}, st *state) {
 		// start + length): "delivers ... the body bytes before k and then
 		// closes". Judged only when the connection's fate is known: another
 		// exchange was answered on it afterwards, so it demonstrably stayed open.
-		haltAtEnd := false
+		// Other actions on the same offset (a halt only adds delay before the
+		// close) do not change the demand; they give the violation its own class.
+		sharedEnd := false
 		for _, h := range sh.Halts {
 			if h.Byte == o.S+o.L && h.Count != 0 {
-				// Observed on the repaired tree: of several actions that coincide
-				// with the end of the response only the first one (halts sort
-				// before closes) is performed, because the write loop ends with
-				// the body. Recorded in the notes as a residual; not demanded here.
-				haltAtEnd = true
+				sharedEnd = true
 			}
 		}
-		if total, ok := byOff[o.S+o.L]; ok && !haltAtEnd && o.Delivered == o.L && !o.Closed && o.Fin == "" && o.answeredAfter {
+		// The actions on the end offset run after the client has the last byte (a
+		// halt there delays the close), so a reconfiguration accepted before the
+		// proxy turned to the next exchange on this connection may legitimately
+		// have cancelled them: the window that must be free of accepted
+		// reconfigurations reaches up to the arrival of the next response head.
+		if total, ok := byOff[o.S+o.L]; ok && o.Delivered == o.L && !o.Closed && o.Fin == "" && o.answeredAfter &&
+			!st.overlapsAccepted(o.TSend, o.nextHead) {
 			off := o.S + o.L
 			used, amb := int64(0), int64(0)
 			for _, p := range group {
-				if p == o || !p.TSend.Before(o.TDone) {
+				// the end actions run after the client has the last byte (behind a
+				// halt on the same offset): another response may use the count up
+				// until the proxy turns to the next exchange of this connection
+				if p == o || !p.TSend.Before(o.nextHead) {
 					continue
 				}
 				if p.S+p.Delivered == off && (p.Delivered < p.L || p.Closed) {
@@ -826,7 +834,11 @@ func judge(r *vh.Run, c interface{}, st *state) {
 				}
 			}
 			if total < 0 || used+amb < total {
-				viol(o, "C18:cut:missing:"+o.ctx(), fmt.Sprintf("the response ended exactly at offset %d, whose close action has count %d (only %d(+%d possibly) closes happened there before), but the connection was not closed: a later exchange on it was answered", off, total, used, amb), nil)
+				sig := "C18:cut:missing:" + o.ctx()
+				if sharedEnd {
+					sig = "C18:cut:missing:end-offset-shared"
+				}
+				viol(o, sig, fmt.Sprintf("the response ended exactly at offset %d, whose close action has count %d (only %d(+%d possibly) closes happened there before), but the connection was not closed: a later exchange on it was answered", off, total, used, amb), nil)
 				continue
 			}
 			r.Count("end_of_response_closes_judged", 1)
@@ -1317,6 +1329,7 @@ func (cc *cconn) do(st *state, q reqSpec, conc int, headSeen func()) (*obs, erro
 	}
 	if cc.last != nil {
 		cc.last.answeredAfter = true
+		cc.last.nextHead = time.Now()
 	}
 	if headSeen != nil {
 		headSeen()
@@ -1627,6 +1640,13 @@ func genScenario(r *vh.Run, sc scenCase) *scenario {
 		sh := shapex.Shape{Slot: slot, Regex: shapex.RegexFor(rng, slot), Closes: []shapex.Close{{Byte: n, Count: cnt}}}
 		if rng.Intn(2) == 0 {
 			sh.Halts = []shapex.Halt{{Byte: rng.Int63n(n), DurMs: int64(5 + rng.Intn(40)), Count: -1}}
+		}
+		if sc.Idx%10 == 0 {
+			// every second end-close scenario: a halt (or two) on the very same end offset
+			sh.Halts = append(sh.Halts, shapex.Halt{Byte: n, DurMs: int64(5 + rng.Intn(40)), Count: []int64{-1, 1, 2}[rng.Intn(3)]})
+			if rng.Intn(2) == 0 {
+				sh.Halts = append(sh.Halts, shapex.Halt{Byte: n, DurMs: int64(5 + rng.Intn(20)), Count: -1})
+			}
 		}
 		if rng.Intn(2) == 0 && n > 8 {
 			m := 1 + rng.Int63n(n-2)
